@@ -6,7 +6,8 @@
 // `run` executes the scripts in worker sub-processes: a worker is killed by its own watchdog when a
 // script does not finish within 10 s or the heap passes 1 GiB (MergeSplit that never terminates
 // allocates without bound); the script is then run once more alone to confirm, and the run goes on
-// with the next script.
+// with the next script -- skipping further scripts of the same class (kind, signal, sizer), whose
+// verdict is decided by then.
 //
 // Requests are real exporterhelper requests obtained through the public API
 // New{Logs,Traces,Metrics}QueueBatchSettings().Encoding.Unmarshal(bytes) (xexporterhelper for
@@ -248,6 +249,7 @@ type result struct {
 	Error     string `json:"error,omitempty"`     // the driver could not run the script
 	Hang      string `json:"hang,omitempty"`      // what did not finish (10 s / 1 GiB watchdog)
 	Confirmed bool   `json:"confirmed,omitempty"` // the hang was observed again when re-run alone
+	Skipped   bool   `json:"skipped,omitempty"`   // not run: a script of the same class (kind, signal, sizer) did not terminate before
 	Strict    string `json:"strict,omitempty"`    // split kind, items sizer: divergence from the specified parts
 	Parts     int    `json:"parts"`
 }
@@ -458,7 +460,9 @@ const (
 	heapLimit   = 1 << 30
 )
 
-func worker(spath string, from, only int, tpath, rpath string) {
+func class(s *script) string { return s.Kind + "/" + s.Signal + "/" + s.Sizer }
+
+func worker(spath string, from, only int, tpath, rpath string, skip map[string]bool) {
 	scripts := readScripts(spath)
 	sgs := signals()
 	tf, err := os.Create(tpath)
@@ -471,6 +475,13 @@ func worker(spath string, from, only int, tpath, rpath string) {
 		rec := &recorder{}
 		out.results = append(out.results, result{Sid: s.Sid})
 		res := &out.results[len(out.results)-1]
+		if skip[class(s)] && only < 0 {
+			res.Skipped = true
+			if i == len(scripts)-1 {
+				out.flush(rec, true)
+			}
+			continue
+		}
 		rec.log(map[string]any{"ev": "reset", "sid": s.Sid, "kind": s.Kind, "signal": s.Signal, "sizer": s.Sizer, "max": s.Max, "min": s.Min}, nil)
 		finished := make(chan struct{})
 		go func() {
@@ -540,11 +551,17 @@ func parent(spath, tpath, rpath string) {
 		Results []result          `json:"results"`
 		Ctx     map[string]string `json:"ctx"`
 	}
+	skip := map[string]bool{}
+	scripts := readScripts(spath)
 	runWorker := func(from, only int) (part, []byte, int) {
 		tp, rp := tpath+".part", rpath+".part"
 		os.Remove(tp)
 		os.Remove(rp)
-		cmd := exec.Command(os.Args[0], "worker", spath, strconv.Itoa(from), strconv.Itoa(only), tp, rp)
+		var sk []string
+		for c := range skip {
+			sk = append(sk, c)
+		}
+		cmd := exec.Command(os.Args[0], "worker", spath, strconv.Itoa(from), strconv.Itoa(only), tp, rp, strings.Join(sk, ","))
 		cmd.Stderr = os.Stderr
 		err := cmd.Run()
 		code := 0
@@ -580,6 +597,9 @@ func parent(spath, tpath, rpath string) {
 			p2, tb2, code2 := runWorker(idx, idx)
 			if code2 == exitHang && len(p2.Results) == 1 {
 				p.Results[len(p.Results)-1].Confirmed = true
+				hangs++
+				// the verdict for this class of scripts is decided: do not spend minutes on more of the same
+				skip[class(scripts[idx])] = true
 			} else if code2 == 0 && len(p2.Results) == 1 {
 				// not reproduced: keep the second run's observations for this script
 				cut := lastReset(tb)
@@ -589,7 +609,6 @@ func parent(spath, tpath, rpath string) {
 					ctx[k] = v
 				}
 			}
-			hangs++
 		}
 		tout.Write(tb)
 		results = append(results, p.Results...)
@@ -597,9 +616,6 @@ func parent(spath, tpath, rpath string) {
 		if len(p.Results) == 0 {
 			fmt.Fprintln(os.Stderr, "worker made no progress")
 			os.Exit(1)
-		}
-		if hangs >= 12 {
-			break // the verdict is decided; do not spend minutes on more of the same
 		}
 	}
 	fmt.Fprintln(tout, `{"ev":"end"}`)
@@ -625,10 +641,16 @@ func main() {
 		parent(os.Args[2], os.Args[3], os.Args[4])
 		return
 	}
-	if len(os.Args) >= 7 && os.Args[1] == "worker" {
+	if len(os.Args) >= 8 && os.Args[1] == "worker" {
 		from, _ := strconv.Atoi(os.Args[3])
 		only, _ := strconv.Atoi(os.Args[4])
-		worker(os.Args[2], from, only, os.Args[5], os.Args[6])
+		skip := map[string]bool{}
+		for _, c := range strings.Split(os.Args[7], ",") {
+			if c != "" {
+				skip[c] = true
+			}
+		}
+		worker(os.Args[2], from, only, os.Args[5], os.Args[6], skip)
 		return
 	}
 	fmt.Fprintln(os.Stderr, "usage: batcher run <scripts.ndjson> <trace.ndjson> <results.json>")
